@@ -820,7 +820,11 @@ func replayObligation(e *Engine, o *Obligation, outDir, work string) (string, bo
 		fmt.Fprintf(&src, "\tif vs_panic != nil && !vsContains(vs_stack, %q) { t.Skipf(\"the real function panics elsewhere: %%v\", vs_panic) }\n", site+" ")
 		src.WriteString("\tif vs_panic != nil { t.Fatalf(\"VERIF-REPRODUCED: the real function panics: %v\", vs_panic) }\n")
 	default:
-		src.WriteString("\tif vs_panic != nil { t.Fatalf(\"VERIF-REPRODUCED: the real function panics instead of returning: %v\", vs_panic) }\n")
+		if c != nil && c.Safety {
+			src.WriteString("\tif vs_panic != nil { t.Fatalf(\"VERIF-REPRODUCED: the real function panics instead of returning (its contract says it never does): %v\", vs_panic) }\n")
+		} else {
+			src.WriteString("\tif vs_panic != nil { t.Skipf(\"the real function panics on this input (%v): not the failure this obligation describes\", vs_panic) }\n")
+		}
 		fmt.Fprintf(&src, "\tvs_phase = 2\n\tvar vs_ok bool\n\tvar vs_opanic any\n\tfunc() {\n\t\tdefer func() { vs_opanic = recover() }()\n\t\tvs_ok = %s(%s)\n\t}()\n", oracle, strings.Join(append(append([]string{}, names...), resNames...), ", "))
 		src.WriteString("\tif vs_opanic != nil { t.Skipf(\"oracle could not be evaluated: %v\", vs_opanic) }\n")
 		fmt.Fprintf(&src, "\tif !vs_ok { t.Fatalf(\"VERIF-REPRODUCED: postcondition false after the call; results: %%+v\", []any{%s}) }\n", strings.Join(resNames, ", "))
